@@ -362,7 +362,9 @@ the driver evaluates it on every insertion it compares (clause `insert-model-sid
 
 def singleFaceOK (s : St) (e : Nat) : Bool :=
   decide (e < s.nE) && decide (s.fc e = 0) && decide (s.nxt (s.nxt e) ≠ e) &&
-  decide (s.org e ≠ s.org (s.rv (s.nxt e)))
+  decide (s.org e ≠ s.org (s.rv (s.nxt e))) &&
+  -- the triangle that is closed makes a strict left turn (it becomes a counter-clockwise face)
+  decide (0 < orient (s.A e) (s.B e) (s.B (s.nxt e)))
 
 def ccwWalkOK (p : Pt) : Nat → St → Nat → Bool
   | 0, _, _ => true
@@ -386,6 +388,8 @@ def cwWalkOK (p : Pt) : Nat → St → Nat → Bool
 
 def outsideOK (s : St) (hullEdge : Nat) (p : Pt) (d : Nat) : Bool :=
   decide (hullEdge < s.nE) && decide (s.fc hullEdge = 0) &&
+  -- the new vertex is strictly on the outer side of the hull edge it is attached to
+  decide (0 < orient (s.A hullEdge) (s.B hullEdge) p) &&
   (let s1 := (s.createNewFaceAdjacentToEdge hullEdge p d).1
    let ccwStart := s1.rv (s1.prv hullEdge)
    let cwStart := s1.rv (s1.nxt hullEdge)
@@ -414,8 +418,14 @@ def insertSideOK (s : St) (p : Pt) (d : Nat) (hint : Nat) : Bool :=
     | .extending v => s.extendOK v
   else
     match s.locateM p hint with
-    | some (.outside e) => s.outsideOK e p d
-    | _ => true
+    | some r =>
+      -- the answer of the locate walk is geometrically true (a theorem under the hypotheses of
+      -- `C09_locate_sound`; evaluated here so that the invariants need no further hypothesis)
+      decide (s.LocateAnswerOK p r) &&
+      (match r with
+       | .outside e => s.outsideOK e p d
+       | _ => true)
+    | none => true
 
 /-- comparison of the model state with a dump: links, anchors, positions and payload -/
 def sameStructure (a b : St) : Bool :=
